@@ -11,6 +11,8 @@ def check(ctx):
     nz = tz.check_zone_names(ctx, rep)
     tz.check_zone_name_reader(ctx, rep)
     tz.check_named_zone_constructor(ctx, rep)
+    from rules import zincspec as _zs6
+    _zs6.check_date_lookahead(ctx, rep)
     rep.floor("zone-name table obligations (T-ZONES)", nz, 2)
     from rules import tz as _tzr
     nr = _tzr.check_component_rebuild(ctx, rep)
